@@ -91,6 +91,19 @@ def run_synthetic(case):
             dill.dump(blob, f)
         s = inc.new_sampler()
         s.load_state("/simfs/out/synthetic.state")
+        # a second checkpoint with the same batch sizes but other values is loaded into the *used* sampler (nothing may be
+        # carried over from the first history: caches keyed by the pool size would)
+        blob2 = dict(blob)
+        h2 = {k: list(v) for k, v in hist.items()}
+        h2["logl"] = [np.asarray(x)[::-1] * 0.7 - 3.0 for x in hist["logl"]]
+        h2["logz"] = [z * 0.5 + 1.0 for z in hist["logz"]]
+        h2["beta"] = list(reversed(hist["beta"])) if len(hist["beta"]) > 1 and case["shuffle"] else list(hist["beta"])
+        blob2["_history"] = h2
+        blob2["_current"] = dict(cur, logl=h2["logl"][-1], beta=h2["beta"][-1], logz=h2["logz"][-1])
+        with open("/simfs/out/synthetic2.state", "wb") as f:
+            dill.dump(blob2, f)
+        s.load_state("/simfs/out/synthetic2.state")
+        w.probe("second_history_loaded_into_used_sampler")
     if w.escapes:
         raise RuntimeError("; ".join(w.escapes))
     return dict(violations=list(w.violations), stats=dict(weight_checks=mon.n_checks, synthetic_histories=1), probes=dict(w.probes), digest=json.dumps([mon.n_checks, len(w.violations)]),
